@@ -599,3 +599,26 @@ for _m in [
     _ISET.append(_sp)
 INDEXED_SET['methods'] = _ISET
 SPECS['C11'] = SPECS['C11'] + _ISET
+
+# --- round 3e: C16, the text builders of boltons.tbutils (harness/py2lean_c16.py: spec key `translator`; notes/SRCTIE.md
+# section "C16"; runtime lean/BoltonsVerif/PyRtC16.lean).  Types: Str | Int | Nat | Bool | List T | Option T | T × U |
+# FrameD (a frame dict of a ParsedException: keys filepath / lineno / funcname present with str values, `source_line`
+# read with .get) | Callpoint (object: module_path, lineno (int >= 0), func_name, line) | DLine (a _DeferredLine).
+# `self_attrs`: attributes of `self` that become parameters; `self_obj`: `self` is an object of that declared type;
+# `locals`: declared types of locals that hold None at first.  Callees come before their callers.
+_C16 = [
+    {'qualname': 'ParsedException.to_string', 'lean_name': 'ParsedException.to_string', 'method': True,
+     'self_attrs': {'frames': 'List FrameD', 'exc_type': 'Str', 'exc_msg': 'Str'}, 'params': {}, 'result': 'Str',
+     'tie_theorem': 'C16.src_to_string_eq_model'},
+    {'qualname': '_repeated_line_note', 'lean_name': 'repeated_line_note', 'params': {'count': 'Int'},
+     'result': 'Str', 'tie_theorem': 'C16.src_repeated_line_note_eq_model'},
+    {'qualname': 'Callpoint.tb_frame_str', 'lean_name': 'Callpoint.tb_frame_str', 'method': True,
+     'self_obj': 'Callpoint', 'params': {}, 'result': 'Str', 'tie_theorem': 'C16.src_tb_frame_str_eq_model'},
+    {'qualname': 'TracebackInfo.get_formatted', 'lean_name': 'TracebackInfo.get_formatted', 'method': True,
+     'self_attrs': {'frames': 'List Callpoint'}, 'params': {}, 'result': 'Str',
+     'locals': {'last_site': 'Option (Str × Nat × Str)'},
+     'tie_theorem': 'C16.src_get_formatted_eq_model'},
+]
+for _sp in _C16:
+    _sp.update(module='boltons.tbutils', kind='function', translator='py2lean_c16', gen_file='tbutils_c16')
+SPECS['C16'] = _C16
